@@ -515,6 +515,7 @@ type runner struct {
 	w     *lib.Writer
 	r     *mrand.Rand
 	certs [][]byte // well-formed certificates (donors, concatenation pieces)
+	bare  [][]byte // well-formed certificates lacking optional fields (no version / extensions / unique ids / parameters)
 	all   [][]byte // every well-formed document
 }
 
@@ -592,7 +593,11 @@ func sameCert(a, b *x509.Certificate) bool {
 		a.SerialNumber.Cmp(b.SerialNumber) == 0 && a.Subject.String() == b.Subject.String() && a.Issuer.String() == b.Issuer.String() &&
 		a.NotBefore.Equal(b.NotBefore) && a.NotAfter.Equal(b.NotAfter) && len(a.Extensions) == len(b.Extensions) &&
 		reflect.DeepEqual(a.DNSNames, b.DNSNames) && a.KeyUsage == b.KeyUsage && reflect.DeepEqual(a.ExtKeyUsage, b.ExtKeyUsage) &&
-		a.IsCA == b.IsCA && reflect.DeepEqual(a.SubjectKeyId, b.SubjectKeyId) && reflect.DeepEqual(a.UnhandledCriticalExtensions, b.UnhandledCriticalExtensions)
+		a.IsCA == b.IsCA && reflect.DeepEqual(a.SubjectKeyId, b.SubjectKeyId) && reflect.DeepEqual(a.UnhandledCriticalExtensions, b.UnhandledCriticalExtensions) &&
+		a.Version == b.Version && a.SignatureAlgorithm == b.SignatureAlgorithm && a.PublicKeyAlgorithm == b.PublicKeyAlgorithm &&
+		reflect.DeepEqual(a.Extensions, b.Extensions) && a.BasicConstraintsValid == b.BasicConstraintsValid && a.MaxPathLen == b.MaxPathLen &&
+		reflect.DeepEqual(a.AuthorityKeyId, b.AuthorityKeyId) && reflect.DeepEqual(a.IPAddresses, b.IPAddresses) && reflect.DeepEqual(a.EmailAddresses, b.EmailAddresses) &&
+		reflect.DeepEqual(a.Signature, b.Signature) && reflect.DeepEqual(a.PublicKey, b.PublicKey) && reflect.DeepEqual(a, b)
 }
 
 // model-tied + direct oracle (iii): ParseCertificates on the concatenation of pieces.
@@ -833,7 +838,22 @@ func main() {
 	flag.Parse()
 	rn := &runner{w: lib.NewWriter(header, 400), r: lib.Rand()}
 	docs := loadPEMDocs()
-	docs = append(docs, generatedDocs()...)
+	gd := generatedDocs()
+	docs = append(docs, gd...)
+	// certificates lacking optional fields, derived from a CA and a leaf donor
+	var donors []*x509.Certificate
+	for _, d := range gd {
+		if d.src == "generated/inter" || d.src == "generated/rich" {
+			if c, err := x509.ParseCertificate(d.der); err == nil {
+				donors = append(donors, c)
+			}
+		}
+	}
+	bare, _ := bareDocs(donors)
+	docs = append(docs, bare...)
+	for _, d := range bare {
+		rn.bare = append(rn.bare, d.der)
+	}
 	// TBS documents from the certificates
 	var tbsDocs []doc
 	for _, d := range docs {
@@ -1056,6 +1076,18 @@ func (rn *runner) concatStream() {
 	}
 	if len(good) == 0 {
 		return
+	}
+	// a certificate lacking optional fields before, after and between certificates that have them
+	for i, b := range rn.bare {
+		src := fmt.Sprintf("bare#%d", i)
+		rn.many(src, []string{"bare"}, [][]byte{b}, true, "stream:bare", "concat:bare-alone")
+		for j := 0; j < lib.Count(3, 12); j++ {
+			g, g2 := pick(good), pick(good)
+			rn.many(src, []string{"good||bare"}, [][]byte{g, b}, true, "stream:bare", "concat:good-then-bare")
+			rn.many(src, []string{"bare||good"}, [][]byte{b, g}, true, "stream:bare", "concat:bare-then-good")
+			rn.many(src, []string{"good||bare||good"}, [][]byte{g, b, g2}, true, "stream:bare", "concat:good-bare-good")
+			rn.many(src, []string{"bare||bare'"}, [][]byte{pick(rn.bare), b}, true, "stream:bare", "concat:bare-then-bare")
+		}
 	}
 	for i := 0; i < lib.Count(120, 1500); i++ {
 		k := 1 + rn.r.Intn(4)
